@@ -120,8 +120,10 @@ class DiameterAssociation(object):
 
 
     def is_connected(self) -> bool:
-        if self.transport:
-           return self.transport.is_connected
+        #: close() drops the reference from another thread: read it once.
+        transport = self.transport
+        if transport:
+           return transport.is_connected
         
         return False
 
